@@ -681,6 +681,6 @@ LAWS = [
         rule='1-10 registrations on parser A (set_variable incl. TRUE, set_function incl. SUM, on/once/off for the four events, evaluations): after each, parser B gives the outcomes of an untouched parser for 12 probe formulas and holds none of A\'s variables, functions or listeners'),
 ]
 
-LEVEL_TEXT = 'Hypothesis exploration of re-entrant evaluation (generated interposition points, depth 2, both parsers / same parser, both construction orders) and of thread interleavings under a harness-owned, replayable schedule at Python-line granularity, with solo evaluation as the oracle (a blocked evaluation is told from a slow one and reported); an enumerated law with an operand near the recursion limit of the interpreter; free-running thread stress in the thorough tier.'
+LEVEL_TEXT = 'Hypothesis exploration of re-entrant evaluation (generated interposition points, depth 2, both parsers / same parser, both construction orders) and of thread interleavings under a harness-owned, replayable schedule at Python-line granularity, with solo evaluation as the oracle (a blocked evaluation is told from a slow one and reported); an enumerated law with an operand near the recursion limit of the interpreter; brand-new interpreter processes whose first evaluations are made by several threads at once; free-running thread stress in the thorough tier.'
 LEVEL_NOTE = 'Trusted: sys.settrace-based baton scheduler (one thread runs at a time). Not every interleaving is explored; races inside one Python statement or C code are out of reach.'
 TECHNIQUE = 'property-based testing with generated interposition points and harness-owned thread schedules (deterministic interleaving exploration), solo-run oracle'
